@@ -695,7 +695,15 @@ impl JitCompiler {
                     self.emit_mov(mem, src, RCX);
                     self.emit_alu32(mem, 0xd3, 7, dst);
                 }
-                ebpf::LE         => {}, // No-op
+                ebpf::LE         => {
+                    // Host is little-endian: only truncate to the requested width.
+                    match insn.imm {
+                        16 => self.emit_alu32_imm32(mem, 0x81, 4, dst, 0xffff), // and
+                        32 => self.emit_alu32(mem, 0x89, dst, dst), // mov r32, r32
+                        64 => {}
+                        _ => unreachable!() // Should have been caught by verifier
+                    }
+                },
                 ebpf::BE         => {
                     match insn.imm {
                         16 => {
